@@ -703,10 +703,19 @@ class Machine:
             return self.ev_call(node, env)
         if t in (ast.Yield, ast.YieldFrom):
             scope = env
-            while scope is not None and "__yields__" not in scope:
+            while scope is not None and "__yields__" not in scope and "__cm_body__" not in scope:
                 scope = scope.get("__outer__")
             if scope is None:
                 raise Unsupported("yield outside an eagerly evaluated generator")
+            if "__cm_body__" in scope:
+                if t is not ast.Yield:
+                    raise Unsupported("yield from in a context manager")
+                body = scope["__cm_body__"]
+                if body is None:
+                    raise Unsupported("context manager generator yields twice")
+                scope["__cm_body__"] = None
+                body(ev(node.value, env) if node.value is not None else None)
+                return None
             if t is ast.Yield:
                 scope["__yields__"].append(ev(node.value, env) if node.value is not None else None)
             else:
@@ -945,7 +954,7 @@ class Machine:
             obj.attrs["args"] = tuple(args)
         return obj
 
-    def invoke(self, fn: FuncV, args, kwargs):
+    def invoke(self, fn: FuncV, args, kwargs, cm_body=None):
         qual = fn.qual
         if qual in self.stubs:
             return self.stubs[qual](self, args, kwargs)
@@ -999,6 +1008,15 @@ class Machine:
                 # thing when producing the values has no effect the consumer could observe in between, so effects make it unsupported.
                 if any(isinstance(n, ast.Await) for st in node.body for n in _walk_no_nested(st)):
                     raise Unsupported("coroutine " + qual)
+                if cm_body is not None:
+                    # @contextmanager generator driving a `with` block: the block runs where the generator yields, an exception of the
+                    # block is raised at the yield (so the generator's try/finally / except see it)
+                    scope["__cm_body__"] = cm_body
+                    try:
+                        self.block(node.body, scope)
+                    except _Return:
+                        pass
+                    return None
                 scope["__yields__"] = []
                 n_events = len([e for e in self.events if e.kind in ("call", "set", "del")])
                 try:
@@ -1179,11 +1197,35 @@ class Machine:
         elif t is ast.Try:
             self.try_stmt(st, env)
         elif t is ast.With:
-            for it in st.items:
-                v = ev(it.context_expr, env)
+            items = list(st.items)
+
+            def run_items(i):
+                if i == len(items):
+                    self.block(st.body, env)
+                    return
+                it = items[i]
+                ce = it.context_expr
+                if isinstance(ce, ast.Call):
+                    fn = ev(ce.func, env)
+                    target = fn.func if isinstance(fn, BoundV) else fn
+                    if isinstance(target, FuncV) and not isinstance(target.node, ast.Lambda) and any(
+                            (d.id if isinstance(d, ast.Name) else getattr(d, "attr", "")) == "contextmanager" for d in target.node.decorator_list):
+                        args = [ev(a, env) for a in ce.args]
+                        kwargs = {k.arg: ev(k.value, env) for k in ce.keywords}
+                        if isinstance(fn, BoundV):
+                            args = [fn.obj] + args
+
+                        def body(value, it=it, i=i):
+                            if it.optional_vars is not None:
+                                self.bind(it.optional_vars, value, env)
+                            run_items(i + 1)
+                        self.invoke(target, args, kwargs, cm_body=body)
+                        return
+                v = ev(ce, env)
                 if it.optional_vars is not None:
                     self.bind(it.optional_vars, v if isinstance(v, Opaque) else Opaque("ctx"), env)
-            self.block(st.body, env)
+                run_items(i + 1)
+            run_items(0)
         elif t in (ast.Import, ast.ImportFrom):
             for a in st.names:
                 env[(a.asname or a.name).split(".")[0]] = Opaque(a.name)
